@@ -53,7 +53,7 @@ class Lin:
 
 
 TRANSPARENT = re.compile(
-    r"ops::Try>::branch$|Result::<T, E>::(map_err|inspect_err|inspect)$|convert::From<.*>>::from$|convert::Into<.*>>::into$|ops::Deref>::deref$"
+    r"ops::Try>::branch$|Result::<T, E>::(map_err|inspect_err|inspect)$|Option::<T>::(ok_or|ok_or_else)$|convert::From<.*>>::from$|convert::Into<.*>>::into$|ops::Deref>::deref$"
     r"|ops::DerefMut>::deref_mut$|convert::AsRef<.*>>::as_ref$|clone::Clone>::clone$|::attach_context$|::ask_report$|<T as std::convert::Into<U>>::into$"
     r"|bytes::Bytes::copy_from_slice$|::to_vec$|::as_slice$|borrow::Borrow<.*>>::borrow$|std::convert::identity$")
 READ_PARTIAL = re.compile(r"(ReadBackend|DecryptReadBackend)(>)?::read_partial$|::read_encrypted_partial$")
@@ -260,6 +260,12 @@ class Analysis:
                 v = Lin.sym(f"len@{bb}")
                 self.call_syms[bb] = f"len@{bb}"
             self.assign(st, dest, iv=v)
+            return
+        m_chk = re.search(r"::(checked_sub|checked_add)$", c)
+        if m_chk and len(args) == 2:
+            # the payload of `Some`: the exact difference / sum (the `None` case leaves through `?` / `ok_or_else`)
+            x, y = self.int_of(st, args[0]), self.int_of(st, args[1])
+            self.assign(st, dest, iv=((x - y) if m_chk.group(1) == "checked_sub" else (x + y)) if x is not None and y is not None else None)
             return
         if TRANSPARENT.search(c) or TRANSPARENT.search(cd):
             self.assign(st, dest, self.int_of(st, args[0]) if args else None, self.len_of(st, args[0]) if args else None)
